@@ -739,6 +739,70 @@ def AttackGraph___generate_graph(self):
                 target_node.parents.append(ag_node)
 
 
+# ---- B313  LanguageGraph._generate_graph  (C15, C06)  [maltoolbox/language/languagegraph.py]
+def LanguageGraph___generate_graph(self):
+    for asset in self._lang_spec['assets']:
+        asset_node = LanguageGraphAsset(name=asset['name'], associations=[], attack_steps=[], description=asset['meta'], super_assets=[], sub_assets=[], is_abstract=asset['isAbstract'])
+        self.assets.append(asset_node)
+    for asset_info in self._lang_spec['assets']:
+        asset = next((asset for asset in self.assets if asset.name == asset_info['name']), None)
+        if asset_info['superAsset']:
+            super_asset = next((asset for asset in self.assets if asset.name == asset_info['superAsset']), None)
+            if not super_asset:
+                msg = 'Failed to find super asset "%s" for asset "%s"!'
+                raise LanguageGraphSuperAssetNotFoundError(msg % (asset_info['superAsset'], asset_info['name']))
+            super_asset.sub_assets.append(asset)
+            asset.super_assets.append(super_asset)
+    for asset in self.assets:
+        associations = self._get_associations_for_asset_type(asset.name)
+        for association in associations:
+            left_asset = next((asset for asset in self.assets if asset.name == association['leftAsset']), None)
+            if not left_asset:
+                msg = 'Left asset "%s" for association "%s" not found!'
+                raise LanguageGraphAssociationError(msg % (association['leftAsset'], association['name']))
+            right_asset = next((asset for asset in self.assets if asset.name == association['rightAsset']), None)
+            if not right_asset:
+                msg = 'Right asset "%s" for association "%s" not found!'
+                raise LanguageGraphAssociationError(msg % (association['rightAsset'], association['name']))
+            assoc_node = next((assoc for assoc in self.associations if assoc.name == association['name'] and assoc.left_field.asset == left_asset and (assoc.right_field.asset == right_asset)), None)
+            if assoc_node:
+                continue
+            assoc_node = LanguageGraphAssociation(name=association['name'], left_field=LanguageGraphAssociationField(left_asset, association['leftField'], association['leftMultiplicity']['min'], association['leftMultiplicity']['max']), right_field=LanguageGraphAssociationField(right_asset, association['rightField'], association['rightMultiplicity']['min'], association['rightMultiplicity']['max']), description=association['meta'])
+            associated_assets = [left_asset, right_asset]
+            while associated_assets != []:
+                asset = associated_assets.pop()
+                associated_assets.extend(asset.sub_assets)
+                if assoc_node not in asset.associations:
+                    asset.associations.append(assoc_node)
+            self.associations.append(assoc_node)
+    for asset in self.assets:
+        attack_steps = self._get_attacks_for_asset_type(asset.name)
+        for attack_step_name, attack_step_attribs in attack_steps.items():
+            attack_step_node = LanguageGraphAttackStep(name=attack_step_name, type=attack_step_attribs['type'], asset=asset, ttc=attack_step_attribs['ttc'], children={}, parents={}, description=attack_step_attribs['meta'])
+            attack_step_node.attributes = attack_step_attribs
+            asset.attack_steps.append(attack_step_node)
+            self.attack_steps.append(attack_step_node)
+    for attack_step in self.attack_steps:
+        step_expressions = attack_step.attributes['reaches']['stepExpressions'] if attack_step.attributes['reaches'] else []
+        for step_expression in step_expressions:
+            target_asset, dep_chain, attack_step_name = self.process_step_expression(self._lang_spec, attack_step.asset, None, step_expression)
+            if not target_asset:
+                msg = 'Failed to find target asset to link with for step expression:\n%s'
+                raise LanguageGraphStepExpressionError(msg % json.dumps(step_expression, indent=2))
+            target_attack_step = next((attack_step for attack_step in target_asset.attack_steps if attack_step.name == attack_step_name), None)
+            if not target_attack_step:
+                msg = 'Failed to find target attack step %s on %s to link with for step expression:\n%s'
+                raise LanguageGraphStepExpressionError(msg % (attack_step_name, target_asset.name, json.dumps(step_expression, indent=2)))
+            if attack_step.name in target_attack_step.parents:
+                target_attack_step.parents[attack_step.name].append((attack_step, dep_chain))
+            else:
+                target_attack_step.parents[attack_step.name] = [(attack_step, dep_chain)]
+            if target_attack_step.name in attack_step.children:
+                attack_step.children[target_attack_step.name].append((target_attack_step, self.reverse_dep_chain(dep_chain, None)))
+            else:
+                attack_step.children[target_attack_step.name] = [(target_attack_step, self.reverse_dep_chain(dep_chain, None))]
+
+
 # ---- B302  AttackGraph.add_node  (C09, C02)  [maltoolbox/attackgraph/attackgraph.py]
 def AttackGraph__add_node(self, node, node_id=None):
     if logger.isEnabledFor(logging.DEBUG):
